@@ -13,7 +13,8 @@ The table `[]entry` is a map from slot index to entry (absent = the zero entry).
 (`alloc`/`release`) only recycles storage and is not modelled.  The recursion of `mid` carries fuel.
 
 The model is of the tree *with* `fixes/C06-dfpn-attacker.diff` (`Prove` reports from the attacker's
-point of view when the attacker is not the side to move). -/
+point of view when the attacker is not the side to move) and `fixes/C06-dfpn-finished-root.diff`
+(`Prove` answers for a finished game instead of searching below it). -/
 namespace Tak.DFPN
 open Tak.PN (Game Eval)
 
@@ -236,7 +237,12 @@ def prove (fuel : Nat) (att : Color) (entries : Nat) (g : S) : Except Err (Resul
   let attacker := if att == .none then G.toMove g else att
   let st : St M := { table := {}, tableLen := entries, stats := {}, killers := #[] }
   let root : Entry M := { hash := hash g, work := 0, bounds := { phi := 1, delta := 1 }, pv := none }
-  match mid G hash threats scale attacker fuel st [] g { phi := infinity / 2, delta := infinity / 2 } root with
+  -- (fix) `mid` never looks at the end of the game for the position it is called on
+  let r : Except Err (St M × Entry M × UInt64) :=
+    match G.over g with
+    | some result => .ok (st, { root with bounds := terminalBounds G attacker g result }, 0)
+    | none => mid G hash threats scale attacker fuel st [] g { phi := infinity / 2, delta := infinity / 2 } root
+  match r with
   | .error e => .error e
   | .ok (st, entry, work) =>
     -- (fix) the numbers are relative to the side to move; report for the attacker
